@@ -127,3 +127,72 @@ func TestRuleLookupAndWrapper(t *testing.T) {
 		t.Fatal("wrapper must hide DRepDelegation")
 	}
 }
+
+// Every presentation variant is the same transaction: same size, decodes, and
+// (on a correct library) gets the verdict of the canonical form.
+func TestPresentationsAreSizeNeutralAndAccepted(t *testing.T) {
+	for _, e := range AllEras {
+		w := NewWorld(e)
+		s := w.Spec.Clone()
+		s.TTL = U64(5000)
+		if e.HasValidityStart() {
+			s.ValidityStart = U64(10)
+		}
+		if e.HasPlutus() {
+			s.RequiredSigners = []Hash28{w.Payer.Hash()}
+			s.NetworkID = U8(Mainnet)
+		}
+		canon := w.Run(s, w.Slot)
+		if !canon.Accepted {
+			t.Fatalf("%s canonical: %v %v", e, canon.DecodeErr, canon.VerifyErr)
+		}
+		ps := s.Presentations(7)
+		if len(ps) < 2 {
+			t.Fatalf("%s: only %d presentations", e, len(ps))
+		}
+		for _, p := range ps {
+			o := w.Run(s.Presented(p), w.Slot)
+			if len(o.Built.Cbor) != len(canon.Built.Cbor) {
+				t.Fatalf("%s %s: size %d != %d", e, p.Name, len(o.Built.Cbor), len(canon.Built.Cbor))
+			}
+			if bytes.Equal(o.Built.Cbor, canon.Built.Cbor) {
+				t.Fatalf("%s %s: bytes unchanged", e, p.Name)
+			}
+			if o.DecodeErr != nil || !o.Accepted {
+				t.Fatalf("%s %s: decode=%v verify=%v", e, p.Name, o.DecodeErr, o.VerifyErr)
+			}
+		}
+	}
+}
+
+// The history checks stay quiet on a pure validation and notice a validator
+// that mutates the UTxO objects or changes its mind.
+func TestCheckedNoticesMutationAndFlipFlop(t *testing.T) {
+	var keys []string
+	Enable(&Independence{Prop: "T", Report: func(k, _ string, _ any) { keys = append(keys, k) }})
+	defer Enable(nil)
+	w := NewWorld(Conway)
+	o := w.Run(w.Spec, w.Slot)
+	if !o.Accepted || len(keys) != 0 {
+		t.Fatalf("clean run: accepted=%v keys=%v", o.Accepted, keys)
+	}
+	n := 0
+	Checked(Conway, o.Tx, w.State, func() error {
+		n++
+		if n == 2 {
+			return ErrUtxoNotFound
+		}
+		return nil
+	})
+	Checked(Conway, o.Tx, w.State, func() error {
+		u, _ := w.State.UtxoById(o.Tx.Inputs()[0])
+		u.Output.Amount() // fresh big.Int: harmless
+		for _, out := range o.Tx.Outputs() {
+			_ = out
+		}
+		return nil
+	})
+	if len(keys) != 1 || keys[0] != "T:revalidation:conway:accept->reject" {
+		t.Fatalf("keys=%v", keys)
+	}
+}
